@@ -368,7 +368,7 @@ func (p *wat2wasmWorker) buildNameSection() error {
 		}
 		for j, local := range fn.Locals {
 			localNameMap = append(localNameMap, &wasm.NameAssoc{
-				Index: wasm.Index(j),
+				Index: wasm.Index(len(fn.Type.Params) + j),
 				Name:  local.Name,
 			})
 		}
